@@ -23,6 +23,8 @@ for d in sorted(os.listdir(os.path.join(V, "seeded"))):
                                        "TOOLERROR": "tool error (rc %s)" % r[3]}[r[0]]
     if meta.get("coordinator_note") and r and r[0] == "MISSED":
         res = "quiet by design (see coordinator_note in meta.json)"
+    if meta.get("coordinator_note") and r and r[0] == "TOOLERROR":
+        res = "patch no longer applies to HEAD (see coordinator_note in meta.json)"
     needs = (meta.get("needs_to_manifest") or "").replace("\n", " ").replace("|", "/")
     fr = first.get(d)
     fres = "-" if not fr else {"CAUGHT": "caught", "MISSED": "missed", "TOOLERROR": "tool error"}[fr[0]]
